@@ -1,4 +1,4 @@
-import Httpcache.Proofs.Store
+import Httpcache.Proofs.VaryKey
 /-
 C04 — A stored response is reused only for a matching variant (Vary).
 
@@ -9,11 +9,15 @@ C04 — A stored response is reused only for a matching variant (Vary).
    requests that differ in a nominated field never receive each other's stored response, whatever
    other variants, Vary values or header contents were seen for that URI before."
 
-The theorems hold for an ARBITRARY normaliser of the q-value classes (`normQ`) and never use any
-property of the hash. PARTIAL: the pairing "the entry under a reference's id was written together
-with that reference" is an invariant of sequential, fault-free histories that is checked by the
-monitor on the implementation (body token provenance) and by the correspondence, and would need
-injectivity of the 64-bit hash on the history's resolved maps to be proved.
+The theorems hold for an ARBITRARY normaliser of the q-value classes (`normQ`). The matcher theorems never
+use any property of the hash. The pairing of a reference with the entry under its id (`pairing`) is
+proved from: the hash input being an injective encoding of the recorded pairs (`hash_input_is_delimited`,
+for ALL names and values — what the pinned tree lacked), the naming of everything StoreResponse writes
+(`store_names_what_it_writes`, `naming_invariant`), and ONE assumption that no proof can remove: the
+64-bit FNV-1a hash does not collide on the variant descriptions that occur for the URI and does not map
+one of them to the reserved "0" (`HashSeparates`). PARTIAL in that sense, and in that "the entry found
+under an id is one that some StoreResponse wrote under that id" is the backend being a map (C14), not
+re-proved here; the monitor checks pairing on the implementation by body-token provenance.
 -/
 namespace Httpcache.C04
 open Httpcache
@@ -47,6 +51,51 @@ theorem star_never_matches (normQ : Str → Str → Str) (r : Ref) (reqH : Heade
 theorem absent_is_empty (normQ : Str → Str → Str) (h : Header) (f : Str) (hv : Header.values h f = []) :
     reqValue normQ h f = [] := by
   unfold reqValue; simp [hv]
+
+/-- the byte stream fed to the variant hash is an injective encoding of the recorded (name, value)
+    pairs: names and values are length-delimited, so no value — whatever header-name-like text it
+    contains — can imitate a following field -/
+theorem hash_input_is_delimited (a b : List (Str × Str)) (h : varyHashInput a = varyHashInput b) : a = b :=
+  varyHashInput_inj a b h
+
+/-- hence, where the hash separates the variant descriptions of a URI, the id determines them -/
+theorem variant_id_determines_values (S : List (List (Str × Str))) (hs : HashSeparates fnv64a S) (K : Str)
+    (a b : List (Str × Str)) (ha : a ∈ S) (hb : b ∈ S) (h : makeVaryKey K a = makeVaryKey K b) : a = b :=
+  makeVaryKey_inj fnv64a S hs K a b ha hb h
+
+/-- StoreResponse writes the entry under the id of the storing request's selecting values and an index
+    whose references are old ones or the new one carrying exactly those values -/
+theorem store_names_what_it_writes (cfg : Cfg) (reqH : Header) (r : Resp) (bodyOk : Bool) (key : Str) (refs : List Ref)
+    (reqT respT : Int) (ri : Option Nat) (k : Resp → Prog) (tr : List Step) (res : Result)
+    (h : Run (storeResponse cfg reqH r bodyOk key refs reqT respT ri k) tr res) :
+    ∃ tr1 tr2, tr = tr1 ++ tr2 ∧ NamedWrites cfg reqH r key refs tr1 ∧
+      Run (k (respWith r (removeHopByHop r.header))) tr2 res :=
+  storeResponse_names cfg reqH r bodyOk key refs reqT respT ri k tr res h
+
+/-- invariant of every index: each reference is named by its own recorded values -/
+theorem naming_invariant (cfg : Cfg) (reqH : Header) (r : Resp) (key : Str) (refs : List Ref) (tr1 : List Step)
+    (hn : ∀ x ∈ refs, RefNamed key x) (hw : NamedWrites cfg reqH r key refs tr1) :
+    ∀ k' rs ok, Step.setRefs k' rs ok ∈ tr1 → k' = key ∧ ∀ x ∈ rs, RefNamed key x :=
+  namedWrites_keep_naming cfg reqH r key refs tr1 hn hw
+
+/-- Pairing: a request B that matches a reference whose id is the id under which StoreResponse stored the
+    response fetched by request A has the same normalised value as A for EVERY field A's response
+    nominated. Two requests that differ in a nominated field never receive each other's stored response,
+    whatever other variants, Vary values or header contents were seen for that URI before. -/
+theorem pairing (cfg : Cfg) (S : List (List (Str × Str))) (hs : HashSeparates fnv64a S) (key : Str)
+    (reqA reqB : Header) (rA : Resp) (ref : Ref)
+    (hnamed : RefNamed key ref) (hrS : ref.resolved ∈ S) (hAS : storedSelecting cfg reqA rA ∈ S)
+    (hent : ref.id = makeVaryKey key (storedSelecting cfg reqA rA))
+    (hm : varyMatchOne cfg.normQ ref reqB = true) :
+    ∀ p ∈ storedSelecting cfg reqA rA, reqValue cfg.normQ reqB p.1 = reqValue cfg.normQ reqA p.1 :=
+  Httpcache.pairing cfg S hs key reqA reqB rA ref hnamed hrS hAS hent hm
+
+/-- the hash assumption is satisfiable (non-vacuity; a test): FNV-1a separates these descriptions,
+    among them the pair that collided on the pinned tree -/
+example : HashSeparates fnv64a [[], [(str% "X-A", str% "1")], [(str% "X-A", str% "2")],
+    [(str% "X-A", str% "1"), (str% "X-B", str% "2")], [(str% "X-A", str% "1X-B2")]] := by
+  unfold HashSeparates
+  constructor <;> decide
 
 /-- Regression examples (tests): the pinned tree's collision, a "*" list member, two Vary lines. -/
 example : makeVaryKey (str% "k") [(str% "X-A", str% "1"), (str% "X-B", str% "2")] ≠
